@@ -575,6 +575,28 @@ class DecisionCtx(PCtx):
         super().__init__()
         self.assign = assign
 
+    def _ieval(self, t):
+        """value of an integer term built from constants and selections whose conditions this context decides; None otherwise
+        (NeedAtom propagates so that the missing decision gets enumerated)"""
+        if t.op == 'const':
+            return t.args[0]
+        if t.op == 'select':
+            return self._ieval(t.args[1] if self.decide(t.args[0]) else t.args[2])
+        if t.op == 'zext':
+            return self._ieval(t.args[0])
+        if t.op == 'concat':
+            v, sh = 0, 0
+            for part in t.args:
+                pv = self._ieval(part)
+                if pv is None:
+                    return None
+                v |= pv << sh
+                sh += part.w
+            return v
+        if t.w == 1 and t.op in ('fcmp', 'icmp', 'not', 'and', 'or', 'xor'):
+            return 1 if self.decide(t) else 0
+        return None
+
     def decide(self, c):
         if c.op == 'const':
             return bool(c.args[0])
@@ -607,6 +629,15 @@ class DecisionCtx(PCtx):
             return rel in _SAT[pred[1:]]
         if c.op == 'not':
             return not self.decide(c.args[0])
+        if c.op == 'icmp':
+            # integer flags that are selections of constants under decidable conditions (branch indices, switch selectors)
+            x, y = self._ieval(c.args[1]), self._ieval(c.args[2])
+            if x is not None and y is not None:
+                w_ = c.args[1].w
+                sx = x - (1 << w_) if x >> (w_ - 1) else x
+                sy = y - (1 << w_) if y >> (w_ - 1) else y
+                return {'eq': x == y, 'ne': x != y, 'ult': x < y, 'ule': x <= y, 'ugt': x > y, 'uge': x >= y,
+                        'slt': sx < sy, 'sle': sx <= sy, 'sgt': sx > sy, 'sge': sx >= sy}[c.args[0]]
         if c.op in ('and', 'or', 'xor') and c.w == 1:
             x, y = self.decide(c.args[0]), self.decide(c.args[1])
             return (x and y) if c.op == 'and' else (x or y) if c.op == 'or' else (x != y)
@@ -635,20 +666,31 @@ def _definite(p):
 def _feasible(atoms, vals, infos):
     """comparisons of one expression against several constants must be consistent on the real line"""
     cons = {}
+    nonneg = set()
+
+    def note(px):
+        if len(px.t) == 1:
+            (m, cf), = px.t.items()
+            if cf > 0 and m and all(atom_key(a)[0] in ('fabs', 'sqrt') or m.count(a) % 2 == 0 for a in set(m)):
+                nonneg.add(px.key())
     for at, v in zip(atoms, vals):
         if at[0] != 'pair':
             continue
         pa, pb = infos[at]
         if pb.is_const() and not pa.is_const():
             cons.setdefault(pa.key(), []).append((v, pb.cval()))
+            note(pa)
         elif pa.is_const() and not pb.is_const():
             cons.setdefault(pb.key(), []).append(({'lt': 'gt', 'gt': 'lt'}.get(v, v), pa.cval()))
+            note(pb)
     for k, cs in cons.items():
         if any(r == 'uno' for r, c in cs):
             if not all(r == 'uno' for r, c in cs):
                 return False
             continue
         lo, lo_strict, hi, hi_strict = None, False, None, False
+        if k in nonneg:
+            lo = 0                      # |q|, sqrt(q) and products of them with a positive coefficient are >= 0
         for r, c in cs:
             if r in ('gt', 'eq'):
                 if lo is None or c > lo or (c == lo and r == 'gt'):
@@ -662,17 +704,304 @@ def _feasible(atoms, vals, infos):
     return True
 
 
-def transparent(p, depth=0):
+def _mentions(key, x):
+    """does atom id x occur inside the (nested) key of an atom?"""
+    for part in key[1:]:
+        if isinstance(part, tuple) and len(part) == 2 and part[0] == 'P':
+            q = part[1]
+            for a in q.atoms():
+                if a == x or _mentions(atom_key(a), x):
+                    return True
+    return False
+
+
+def _free_linear_var(e, also=()):
+    """an input-lane atom x that occurs in e exactly to the first power and nowhere inside another atom of e (or of the
+    polynomials in `also`): e = c*x + r with c, r free of x, so e takes every real value (both signs, and zero) as x varies
+    wherever c != 0.  Returns (x, c, r) or None."""
+    for x in sorted(e.atoms()):
+        if atom_key(x)[0] != 'in' or e.degree_in(x) != 1:
+            continue
+        if any(_mentions(atom_key(a), x) for q in (e,) + tuple(also) for a in q.atoms() if a != x):
+            continue
+        c, r = Poly({}, e.mod), Poly({}, e.mod)
+        for m, cf in e.t.items():
+            if x in m:
+                mm = list(m)
+                mm.remove(x)
+                c.t[tuple(mm)] = c.t.get(tuple(mm), 0) + cf
+            else:
+                r.t[m] = cf
+        return x, c, r
+    return None
+
+
+def _unwrap_abs(e):
+    """e == s * fabs(q) + c or s * sqrt(q) + c (s = +-1 up to a positive scale, c constant): (sign s, q, c / |scale|) else None"""
+    c = e.t.get((), Fraction(0))
+    rest = {m: cf for m, cf in e.t.items() if m != ()}
+    if len(rest) != 1:
+        return None
+    (m, cf), = rest.items()
+    if len(m) != 1:
+        return None
+    k = atom_key(m[0])
+    if k[0] not in ('fabs', 'sqrt'):
+        return None
+    return (1 if cf > 0 else -1), k[1][1], Fraction(c) / abs(cf)
+
+
+class CantEval(Exception):
+    pass
+
+
+def _isqrt_frac(x):
+    """exact square root of a non-negative Fraction or None"""
+    import math
+    if x < 0:
+        return None
+    n, d = x.numerator, x.denominator
+    rn, rd = math.isqrt(n), math.isqrt(d)
+    if rn * rn == n and rd * rd == d:
+        return Fraction(rn, rd)
+    return None
+
+
+def eval_atom(a, env):
+    k = atom_key(a)
+    if k[0] == 'in':
+        if a not in env:
+            raise CantEval('unbound lane')
+        return env[a]
+    if k[0] in ('inv', 'sqrt', 'fabs') and len(k) == 2 and isinstance(k[1], tuple) and k[1][0] == 'P':
+        v = eval_poly(k[1][1], env)
+        if k[0] == 'inv':
+            if v == 0:
+                raise CantEval('division by zero')
+            return 1 / v
+        if k[0] == 'fabs':
+            return abs(v)
+        r = _isqrt_frac(v)
+        if r is None:
+            raise CantEval('irrational square root')
+        return r
+    if k[0] in ('fn:sin', 'fn:cos') and len(k) == 2 and ('trig', k[1][1].key()) in env:
+        c_, s_ = env[('trig', k[1][1].key())]
+        return s_ if k[0] == 'fn:sin' else c_
+    raise CantEval('no exact value for %s' % (k[0],))
+
+
+def eval_poly(p, env):
+    """exact rational value of a (real-arithmetic) normal form at a rational point; CantEval if some atom has no exact rational value there"""
+    memo = {}
+    tot = Fraction(0)
+    for m, c in p.t.items():
+        v = Fraction(c)
+        for a in m:
+            if a not in memo:
+                memo[a] = eval_atom(a, env)
+            v *= memo[a]
+            if v == 0:
+                break
+        tot += v
+    return tot
+
+
+def lane_atoms(polys):
+    out = set()
+    stack = list(polys)
+    seen = set()
+    while stack:
+        q = stack.pop()
+        for a in q.atoms():
+            if a in seen:
+                continue
+            seen.add(a)
+            k = atom_key(a)
+            if k[0] == 'in':
+                out.add(a)
+            else:
+                for part in k[1:]:
+                    if isinstance(part, tuple) and len(part) == 2 and part[0] == 'P':
+                        stack.append(part[1])
+    return out
+
+
+_POOL = [Fraction(n, d) for d in (1, 2) for n in range(-4, 5) if d == 1 or n % 2]
+
+
+def _trig_args(polys):
+    """argument polynomials of the sin / cos atoms (nested ones included)"""
+    out = {}
+    stack = list(polys)
+    seen = set()
+    while stack:
+        q = stack.pop()
+        for a in q.atoms():
+            if a in seen:
+                continue
+            seen.add(a)
+            k = atom_key(a)
+            if k[0] in ('fn:sin', 'fn:cos') and len(k) == 2:
+                out[k[1][1].key()] = k[1][1]
+            for part in k[1:]:
+                if isinstance(part, tuple) and len(part) == 2 and part[0] == 'P':
+                    stack.append(part[1])
+    return out
+
+
+def _sphere_point(rng, n):
+    """a rational point of the unit sphere in n dimensions (inverse stereographic projection of a rational point)"""
+    while True:
+        t = [rng.choice(_POOL) for _ in range(n - 1)]
+        if rng.random() < 0.15:
+            t = [Fraction(0)] * (n - 1)
+        s2 = sum(x * x for x in t)
+        pt = [2 * x / (s2 + 1) for x in t] + [(s2 - 1) / (s2 + 1)]
+        rng.shuffle(pt)
+        return pt
+
+
+def find_witness(rel, e, ds, tries=600, extra=(), spheres=()):
+    """a rational point where  e rel 0  holds exactly and every polynomial of ds is non-zero (exact evaluation); None if none found.
+    `extra`: further (rel, poly) constraints that must hold at the point.  `spheres`: tuples of lane atom ids constrained to the unit
+    sphere (unit quaternions / unit vectors): sampled from rational points of the sphere.  sin / cos atoms whose arguments are distinct
+    multiples of distinct single lanes are given rational points of the unit circle (independent angles)."""
+    import random
+    rng = random.Random(20240229)
+    allp = [e] + list(ds) + [q for _, q in extra]
+    vs = sorted(lane_atoms(allp) | {a for sp in spheres for a in sp})
+    trig = _trig_args(allp)
+    trig_lanes = set()
+    for q in trig.values():
+        # c * lane only, each lane used by one argument
+        if len(q.t) != 1:
+            return None
+        (m, c), = q.t.items()
+        if len(m) != 1 or atom_key(m[0])[0] != 'in' or m[0] in trig_lanes:
+            return None
+        trig_lanes.add(m[0])
+    vs = [v for v in vs if v not in trig_lanes]      # an angle used outside sin / cos stays unbound: CantEval, no witness
+    if not vs and not trig:
+        return None
+    onsphere = {a for sp in spheres for a in sp}
+    top = [x for x in vs if x not in onsphere and x in e.atoms() and e.degree_in(x) in (1, 2) and not any(_mentions(atom_key(a), x) for a in e.atoms() if a != x)]
+
+    def holds(r_, v):
+        return (v < 0) if r_ == 'lt' else (v > 0) if r_ == 'gt' else (v == 0)
+    for _ in range(tries):
+        env = {v: rng.choice(_POOL) for v in vs}
+        for sp in spheres:
+            for a, val in zip(sp, _sphere_point(rng, len(sp))):
+                env[a] = val
+        for kq in trig:
+            c_, s_ = _sphere_point(rng, 2)
+            env[('trig', kq)] = (c_, s_)
+        try:
+            if rel == 'eq' and top:
+                x = rng.choice(top)
+                # e = A x^2 + B x + C at the sampled values of the other variables
+                A = B = C = Fraction(0)
+                for m, c in e.t.items():
+                    kx = m.count(x)
+                    v = Fraction(c)
+                    for a in m:
+                        if a != x:
+                            v *= eval_atom(a, env)
+                    if kx == 2:
+                        A += v
+                    elif kx == 1:
+                        B += v
+                    else:
+                        C += v
+                if A == 0:
+                    if B == 0:
+                        continue
+                    env[x] = -C / B
+                else:
+                    disc = _isqrt_frac(B * B - 4 * A * C)
+                    if disc is None:
+                        continue
+                    env[x] = (-B + rng.choice((1, -1)) * disc) / (2 * A)
+            if not holds(rel, eval_poly(e, env)):
+                continue
+            if not all(holds(r_, eval_poly(q, env)) for r_, q in extra):
+                continue
+            if all(eval_poly(d_, env) != 0 for d_ in ds):
+                return env
+        except CantEval:
+            continue
+    return None
+
+
+def show_env(env):
+    def nm(a):
+        k = atom_key(a)
+        return '%s[%d]' % (k[1], k[2] // k[3]) if k[3] else k[1]
+    lanes = [(a, v) for a, v in env.items() if not isinstance(a, tuple)]
+    out = ', '.join('%s=%s' % (nm(a), v) for a, v in sorted(lanes, key=lambda kv: atom_key(kv[0])[1:3]))
+    tr = [(k, v) for k, v in env.items() if isinstance(k, tuple)]
+    if tr:
+        out += '; ' + ', '.join('(cos,sin)#%d=(%s,%s)' % (i, v[0], v[1]) for i, (k, v) in enumerate(tr))
+    return out
+
+
+def _relation_witness(rel, e, ds):
+    """can the relation  e rel 0  (rel in lt/eq/gt) certainly be realised on a set where the non-zero transparent polynomials ds
+    stay non-zero?  Returns None if not certain; otherwise a function mapping a polynomial to its restriction to that set
+    (identity for the open relations, substitution x := solution for 'eq')."""
+    u = _unwrap_abs(e)
+    if u is not None:
+        s, q, c = u                      # s*|q| + c  rel  0
+        # value v = |q| ranges over [0, inf) provided q has a free linear variable
+        fl = _free_linear_var(q, ds)
+        if fl is None:
+            return None
+        # s*v + c < 0 , == 0 , > 0 for some v >= 0 ?
+        thr = -c * s                     # s*v + c == 0  <=>  v == thr  (s = +-1)
+        if rel == 'eq':
+            if thr < 0:
+                return None
+            if thr != 0:
+                return None              # |q| == positive constant: two branches, not handled
+            x, cc, r = fl
+            if not cc.is_const():
+                return None
+            sol = r.scale(-1 / Fraction(cc.cval()))
+            return lambda p_: p_.subst(x, sol) if not any(_mentions(atom_key(a), x) for a in p_.atoms() if a != x) else None
+        want_pos = (rel == 'gt')
+        # s*v + c > 0: if s > 0 always reachable (large v); if s < 0 needs c > 0
+        reach = (s > 0) if want_pos else (s < 0)
+        if not reach:
+            reach = (c > 0) if want_pos else (c < 0)
+        return (lambda p_: p_) if reach else None
+    fl = _free_linear_var(e, ds)
+    if fl is None:
+        return None
+    x, cc, r = fl
+    if rel == 'eq':
+        if not cc.is_const():
+            return None
+        sol = r.scale(-1 / Fraction(cc.cval()))
+        return lambda p_: p_.subst(x, sol) if not any(_mentions(atom_key(a), x) for a in p_.atoms() if a != x) else None
+    return lambda p_: p_
+
+
+def transparent(p, depth=0, free=None):
     """every atom is an input lane or a known real function (sqrt, inv, fabs, libm) of transparent arguments:
-    different normal forms of transparent polynomials are different functions of the inputs"""
+    different normal forms of transparent polynomials are different functions of the inputs.
+    `free(key)`: additional atoms the caller vouches for as independent free values (e.g. the lanes of an opaque
+    inverse whose argument ranges over all invertible matrices)"""
     if depth > 6:
         return False
     for a in p.atoms():
         k = atom_key(a)
         if k[0] == 'in':
             continue
+        if free is not None and free(k):
+            continue
         if k[0] in ('sqrt', 'inv', 'fabs') or k[0].startswith('fn:'):
-            if all(isinstance(x, tuple) and len(x) == 2 and x[0] == 'P' and transparent(x[1], depth + 1) for x in k[1:]):
+            if all(isinstance(x, tuple) and len(x) == 2 and x[0] == 'P' and transparent(x[1], depth + 1, free) for x in k[1:]):
                 continue
         return False
     return True
@@ -710,9 +1039,13 @@ def decision_equal(t1, t2, max_atoms=6, post=None, nan=True):
                     if at[0] == 'pair' and v == 'eq' and not d.is_zero():
                         pa_, pb_ = infos[at]
                         e = pa_ - pb_
-                        if not e.is_zero():
+                        u_ = _unwrap_abs(e) if not e.is_zero() else None
+                        es = [e] + ([u_[1]] if (u_ is not None and u_[2] == 0) else [])     # |q| == 0  =>  q == 0
+                        for e_ in es:
+                            if e_.is_zero() or d.is_zero():
+                                continue
                             try:
-                                _, rem = divmod_poly(d, e)
+                                _, rem = divmod_poly(d, e_)
                                 d = rem
                             except (TooBig, ZeroDivisionError):
                                 pass
@@ -737,7 +1070,18 @@ def decision_equal(t1, t2, max_atoms=6, post=None, nan=True):
                     pa, pb = infos[at]
                     if rel == 'eq' and _definite(pa - pb):
                         continue
-                    if not all(transparent(x[1] - x[2]) for x in mine) or not transparent(pa - pb):
+                    ds = [x[1] - x[2] for x in mine]
+                    if not all(transparent(d_) for d_ in ds) or not transparent(pa - pb):
                         continue
-                    return (False, '%s %s %s' % (show_poly(pa, limit=4), {'lt': '<', 'eq': '==', 'gt': '>'}[rel], show_poly(pb, limit=4)), mine[0][1], mine[0][2])
+                    # the relation must certainly be realisable, and the results must still differ on the set where it holds
+                    desc = '%s %s %s' % (show_poly(pa, limit=4), {'lt': '<', 'eq': '==', 'gt': '>'}[rel], show_poly(pb, limit=4))
+                    restrict = _relation_witness(rel, pa - pb, ds)
+                    if restrict is not None:
+                        rs = [restrict(d_) for d_ in ds]
+                        if not any(r_ is None or r_.is_zero() for r_ in rs):
+                            return (False, desc, mine[0][1], mine[0][2])
+                    # otherwise look for an explicit rational witness point (exact evaluation of the normal forms)
+                    env = find_witness(rel, pa - pb, ds)
+                    if env is not None:
+                        return (False, desc + ' (e.g. at ' + show_env(env) + ')', mine[0][1], mine[0][2])
         return None
